@@ -52,7 +52,8 @@ def gen_synthetic(run, i):
             data[b] = np.array([[rng.choice([1.0, rng.uniform(-0.6, 1.0), rng.random(), rng.random()]) for _ in range(w)] for _ in range(h)], dtype='float32')
         else:
             # value range per band: mixed sign, all negative (e.g. the offsets of a hazy source), all positive, constant
-            lo, hi = [(-3, 8), (-9, -1), (2, 8), (-3, 8), (-0.5, -0.5)][(i + b) % 5] if b != 0 else (-3, 8)
+            # (constant bands: -0.5 is exact in binary; 1/3 is not - its one-pass variance is rounding residue of either sign, finding D28)
+            lo, hi = [(-3, 8), (-9, -1), (2, 8), (-3, 8), (-0.5, -0.5), (1 / 3, 1 / 3)][(i + b) % 6] if b != 0 else (-3, 8)
             data[b] = np.array([[rng.uniform(lo, hi) for _ in range(w)] for _ in range(h)], dtype='float32')
     if (i // 3) % 7 == 6:
         # the diagonal swath needs tiles that hold nothing: a larger image, 16 x 16 tiles among the tilings, a threshold
@@ -252,7 +253,12 @@ def run(run: common.Run):
         if key in per_image:
             prev = per_image[key]
             for a, b_ in zip(prev, cur):
-                if any((x is None) != (y is None) or (x is not None and abs(x - y) > 1e-9 * max(1.0, abs(x))) for x, y in zip(a, b_)):
+                # (the standard deviation is compared through the variance: the one-pass formula carries an absolute error of
+                # ~1e-16 mean^2 in the variance - for a constant band std comes out as 0 or ~1e-8 mean, whatever the tiling)
+                va, vb = a[1] ** 2, b_[1] ** 2
+                std_differs = not ((a[1] != a[1] and b_[1] != b_[1]) or a[1] == b_[1] or abs(va - vb) <= 1e-9 * max(va, vb) + 1e-12 * max(1.0, a[0] ** 2 if a[0] == a[0] else 1.0))
+                a_, b__ = a[:1] + a[2:], b_[:1] + b_[2:]
+                if std_differs or any((x is None) != (y is None) or (x is not None and not (x != x and y != y) and x != y and not (abs(x - y) <= 1e-9 * max(1.0, abs(x)))) for x, y in zip(a_, b__)):
                     run.fail(case, f'figures depend on the tiling / thread count: {a} vs {b_}', signature=dict(kind='tiling-dependent'))
                     break
         per_image[key] = cur
@@ -352,7 +358,21 @@ def cli_json(run, jobs):
         # floats to 10 significant digits: the accumulation order (block completion order) may change the last bits
         return [{k: ('nan' if isinstance(v, float) and v != v else (float(f'{v:.10g}') if isinstance(v, float) else v))
                  for k, v in row.items()} for row in (rows or [])]
-    if canon(js.get(str(p))) != canon(json.loads(json.dumps(api, default=float))):
-        a, b = canon(js.get(str(p))), canon(json.loads(json.dumps(api, default=float)))
+    def same(ra, rb):
+        # (std through the variance, to the absolute accuracy of the one-pass formula: see the cross-tiling comparison above)
+        if set(ra) != set(rb):
+            return False
+        for kk in ra:
+            x, y = ra[kk], rb[kk]
+            if kk == 'std' and isinstance(x, float) and isinstance(y, float):
+                m = ra.get('mean') if isinstance(ra.get('mean'), float) else 1.0
+                if not (abs(x * x - y * y) <= 1e-9 * max(x * x, y * y) + 1e-12 * max(1.0, m * m)):
+                    return False
+            elif x != y:
+                return False
+        return True
+    ja, jb = canon(js.get(str(p))), canon(json.loads(json.dumps(api, default=float)))
+    if len(ja) != len(jb) or not all(same(x, y) for x, y in zip(ja, jb)):
+        a, b = ja, jb
         d = next(((x, y) for x, y in zip(a, b) if x != y), (len(a), len(b)))
         run.fail(c, f'JSON report differs from the API result: {d}', signature=dict(kind='cli-json'))
